@@ -21,6 +21,19 @@ if TYPE_CHECKING:
     from ndonnx._data_types import Dtype
 
 
+def _broadcasts_into(shape, target: tuple[int, ...]) -> bool:
+    """Whether broadcasting ``shape`` against ``target`` is known not to change ``target``.
+
+    Symbolic and unknown dimensions are given the benefit of the doubt.
+    """
+    if len(shape) > len(target):
+        return False
+    return all(
+        not isinstance(dim, int) or dim in (1, t)
+        for dim, t in zip(reversed(shape), reversed(target))
+    )
+
+
 class UniformShapeOperations(OperationsBlock):
     """Provides implementation for shape/indexing operations that are generic across all
     data types where the array's shape is uniform across all of its constituent
@@ -180,7 +193,16 @@ class UniformShapeOperations(OperationsBlock):
                 and not condition.to_numpy().item()
             ):
                 return y.copy()
-        if x.dtype == y.dtype and x.to_numpy() is not None and y.to_numpy() is not None:
+        if (
+            x.dtype == y.dtype
+            and x.to_numpy() is not None
+            and y.to_numpy() is not None
+            and condition.dtype == dtypes.bool
+            and _broadcasts_into(
+                condition._static_shape,
+                np.broadcast_shapes(np.shape(x.to_numpy()), np.shape(y.to_numpy())),
+            )
+        ):
             if isinstance(x.to_numpy(), np.ma.MaskedArray):
                 if np.ma.allequal(x.to_numpy(), y.to_numpy(), fill_value=False):
                     return ndx.asarray(
